@@ -103,7 +103,7 @@ class Workload:
 class Prop:
     """what a property module exports as PROP"""
 
-    def __init__(self, pid, level, rule, workloads, assumptions=(), setup=None, finish=None, required=(), shards=None):
+    def __init__(self, pid, level, rule, workloads, assumptions=(), setup=None, finish=None, required=(), shards=None, teardown=None):
         self.pid = pid
         self.level = level
         self.rule = rule
@@ -113,6 +113,7 @@ class Prop:
         self.finish = finish  # called in the parent with merged evidence (may add keys / raise Inconclusive)
         self.required = list(required)  # counters that must be > 0, else inconclusive
         self.shards = shards or {"quick": 4, "thorough": 16}
+        self.teardown = teardown  # called once per process after the cases (may call ctx.late_violation)
 
 
 def load_known_findings():
@@ -188,6 +189,14 @@ class Ctx:
                                             "case": self.case.as_sample() if self.case else None}
             raise Retire(fid)
         raise Violation(what, mechanism=fid, **witness)
+
+    def late_violation(self, msg, **detail):
+        """a violation observed outside a case (e.g. a sanitizer report at process exit)"""
+        case = Case("teardown", self.shard[0])
+        path = write_replay(self, case, msg, detail)
+        self.violations.append({"message": msg, "replay": path, "workload": "teardown", "index": self.shard[0]})
+        print(f"VIOLATION property={self.pid} replay={path}", flush=True)
+        print(f"  what: {msg[:600]}", flush=True)
 
     def call(self, fn, *args, allowed=(), **kw):
         """call into the library; an exception that is not in `allowed` is a violation
@@ -324,6 +333,8 @@ def run_shard(ctx, budget_s):
                 ctx.exhaustive_done[wl.name] = done_all
     except StopRun:
         pass
+    if prop.teardown:
+        prop.teardown(ctx)
 
 
 def _sorted(v):
